@@ -14,6 +14,10 @@ import FqModel.Binary
     bad <V>                obs(V|tobits) ; obs(V|tobytes) ; obs([V]|tobytes) ; obs(V|to_hex) ; obs(V|tobytesrange)
     memb <N>               obs(N) ; obs([N]|tobytes) ; obs([1,"a",N]|tobytes) ; obs([N,("a"|tobits)]|tobytes) ; obs([[N]]|tobits)
                            N a number expression whose Go type may be *big.Int (results of .[i], .size, tonumber, `- k`)
+    cat <A>                A an array expression: obs(A|tobits) ; obs(A|tobytes) ; then, in depth-first order, the standalone
+                           observation of every member that is not a literal: obs(m|tobits) for a decode value, obs(m) otherwise.
+                           Statement checked on these alone: A converts to the concatenation of its members' bits, a number
+                           member being ONE BYTE (8 bits, also 0 and floats truncating to 0), at every nesting depth
     fcat <seed> <len> <pre> <a1> <b1> <a2> <b2>    file-backed binary $b of <len> pseudo-random bytes (splitmix64 of <seed>)
                            opened through fq's `open`; pre=1: `$b|tostring` first, pre=2: `$b[a2:b2]|tostring` first;
                            obs = size ; h:<bytes>:<fnv1a64> of `[$b[a1:b1], $b[a2:b2]] | tobytes | tostring`
@@ -93,6 +97,7 @@ partial def toE : SX → Option E
   | .list [.atom "str", x] => (toE x).map E.toString
   | .list [.atom "expl", x] => (toE x).map E.explode
   | .list [.atom "hex", x] => (toE x).map E.toHex
+  | .list [.atom "fh", .atom k] => k.toInt?.map E.half
   | .list [.atom "sub", .atom k, x] => do let k ← k.toInt?; (toE x).map (E.sub k)
   | _ => none
 
@@ -251,6 +256,85 @@ def stepFile (c : FileCache) (toks : List String) (obs : String) : FileCache × 
     | _, _, _, _, _, _ => (c, "BADOP parse")
   | _ => (c, "BADOP parse")
 
+/-! concatenation through nested arrays, evaluated on observations only -/
+
+inductive Item
+  | bits (bs : Bits)
+  | convErr (cls : String)
+  | evalErr (cls : String)
+  | bad
+
+def byteItem (n : Int) : Item :=
+  if n < 0 || n > 255 then .convErr "err:byterange" else .bits (toBitsBE 8 n.toNat)
+
+/-- what a member contributes, from its standalone observation -/
+def itemsOfObs (o : String) : List Item :=
+  if isErr o then [.evalErr o]
+  else if o == "z" || o == "t" || o == "f" || o == "o" then [.convErr "err:notbinary"]
+  else if o.startsWith "b:" then
+    match parseB o with
+    | some pb => [.bits pb.bits]
+    | none => [.bad]
+  else if o.startsWith "n:" then
+    match parseN o with
+    | some n => [byteItem n]
+    | none => [.bad]
+  else if o.startsWith "s:" then
+    match bytesOfHex ((o.drop 2).toString) with
+    | some bs => [.bits (bytesToBits bs)]
+    | none => [.bad]
+  else match parseA o with
+    | some els => els.map fun e =>
+        if e == "z" then .convErr "err:notbinary"
+        else match parseN e with
+          | some n => byteItem n
+          | none => .bad
+    | none => [.bad]
+
+/-- depth-first walk of the array expression: literals speak for themselves, every other member takes the next observation;
+    returns the items, the member expressions whose observation is consumed (for the model) and the unconsumed observations -/
+partial def walkMembers : List E → List String → List Item × List E × List String
+  | [], os => ([], [], os)
+  | e :: es, os =>
+    let (it, ms, os) : List Item × List E × List String :=
+      match e with
+      | .int n => ([byteItem n], [], os)
+      | .half k => ([byteItem (Int.tdiv k 2)], [], os)
+      | .str bs => ([.bits (bytesToBits bs)], [], os)
+      | .null => ([.convErr "err:notbinary"], [], os)
+      | .bool _ => ([.convErr "err:notbinary"], [], os)
+      | .obj => ([.convErr "err:notbinary"], [], os)
+      | .arr xs => walkMembers xs os
+      | .dv .. =>
+        match os with
+        | o :: os => (itemsOfObs o, [.toBits 1 false 0 e], os)
+        | [] => ([.bad], [.toBits 1 false 0 e], [])
+      | _ =>
+        match os with
+        | o :: os => (itemsOfObs o, [e], os)
+        | [] => ([.bad], [e], [])
+    let (its, mss, os) := walkMembers es os
+    (it ++ its, ms ++ mss, os)
+
+def catLaw (items : List Item) (rest : List String) (obits obytes : String) : Option String :=
+  if !rest.isEmpty || items.any (fun i => match i with | .bad => true | _ => false) then some "unparsable-observation"
+  else
+    let evalErr := items.findSome? fun i => match i with | .evalErr c => some c | _ => none
+    let convErr := items.findSome? fun i => match i with | .convErr c => some c | _ => none
+    match evalErr, convErr with
+    | some c, _ => if obits == c && obytes == c then none else some "member-error-not-propagated"
+    | none, some c => if obits == c && obytes == c then none else some "member-not-rejected"
+    | none, none =>
+      let bits := items.foldl (fun acc i => match i with | .bits b => acc ++ b | _ => acc) []
+      match parseB obits, parseB obytes with
+      | some pb, some py =>
+        let k := (8 - bits.length % 8) % 8
+        first? [(pb.len == bits.length, "array-concat-size"), (pb.bits == bits, "array-concat-content"),
+                (pb.unit == 1 && pb.start == 0, "array-concat-shape"),
+                (py.unit == 8 && py.start == 0 && py.len == bits.length + k && py.bits == List.replicate k false ++ bits,
+                  "array-concat-bytes")]
+      | _, _ => some "array-concat-rejected"
+
 def stepC09 (op obs : String) : String :=
   let toks := tokenize op
   let os := obs.splitOn sep
@@ -397,6 +481,16 @@ def stepC09 (op obs : String) : String :=
         | _ => some "arity"
       finish law es obs
     | none => "BADOP parse"
+  | "cat" :: rest =>
+    match parseE rest with
+    | some (.arr xs) =>
+      match os with
+      | obits :: obytes :: mobs =>
+        let (items, members, restObs) := walkMembers xs mobs
+        let es := [.toBits 1 false 0 (.arr xs), .toBits 8 false 0 (.arr xs)] ++ members
+        finish (catLaw items restObs obits obytes) es obs
+      | _ => finish (some "arity") [.toBits 1 false 0 (.arr xs), .toBits 8 false 0 (.arr xs)] obs
+    | _ => "BADOP parse"
   | "memb" :: rest =>
     match parseE rest with
     | some x =>
